@@ -51,7 +51,7 @@ MC_Shape ==
 (*   X0  no settings line (horizon 0, default tolerance)   Xt  Err_Tolerance = 1e-3 only (horizon 0)    *)
 (* x, LAG_x, g carry the same NAME in both bodies; x and g are defined differently                     *)
 MC_Body ==
-    [A |-> [vars |-> {"LAG_x", "a", "g", "t", "x", "y"}, early |-> {"g"}, func |-> FALSE],
+    [A |-> [vars |-> {"LAG_x", "a", "g", "n", "t", "x", "y"}, early |-> {"g"}, func |-> FALSE],
      B |-> [vars |-> {"LAG_x", "g", "t", "v", "w", "x"}, early |-> {"g"}, func |-> TRUE]]
 MC_Variant(body, mt, tol) ==
     [vars |-> MC_Body[body].vars, early |-> MC_Body[body].early, func |-> MC_Body[body].func,
